@@ -97,7 +97,16 @@ def render_entry(k, sym):
             step.update(via="async", budget=3)
         return "", [step], 0
     if ck == "limit" and sym["lk"] == "rec":
-        defs.append(f"function E{k}REC() {{ E{k}REC(); }}")
+        # three forms of the runaway recursion, chosen by the entry's position in the history and its depth: the limit is
+        # reached at a plain call, right after a generator of this level was resumed, or inside a for-of over a generator
+        # (resumptions push frames too; whatever they do at the limit, the entry has to end balanced)
+        form = (k + sym["d"]) % 3
+        if form == 1:
+            defs.append(f"function* E{k}GEN() {{ yield 1; yield 2; }} function E{k}REC() {{ var it = E{k}GEN(); it.next(); E{k}REC(); }}")
+        elif form == 2:
+            defs.append(f"function* E{k}GEN() {{ yield 1; yield 2; }} function E{k}REC() {{ for (var v of E{k}GEN()) {{ E{k}REC(); }} }}")
+        else:
+            defs.append(f"function E{k}REC() {{ E{k}REC(); }}")
     for i in range(1, sym["d"] + 1):
         if sym["nat"] == i and sym["rt"] == "getter":
             defs.append(f"var E{k}O{i} = {{ get x() {{ {body(k, sym, i)} }} }};")
